@@ -152,8 +152,14 @@ impl Rt {
         s.set(b"seed-marker", format!("seeded-{}", self.seed).as_bytes());
         TagStorage(s)
     }
+    /// The block handed to `with_block`: boundary values rotate with the seed (height 0 / 1 / max, time 0, empty chain id).
     pub fn block(&self) -> BlockInfo {
-        BlockInfo { height: 777 + self.seed, time: Timestamp::from_seconds(5_000 + self.seed), chain_id: format!("tagchain-{}", self.seed) }
+        match self.seed % 4 {
+            0 => BlockInfo { height: 777 + self.seed, time: Timestamp::from_seconds(5_000 + self.seed), chain_id: format!("tagchain-{}", self.seed) },
+            1 => BlockInfo { height: 0, time: Timestamp::from_nanos(0), chain_id: String::new() },
+            2 => BlockInfo { height: u64::MAX, time: Timestamp::from_nanos(u64::MAX), chain_id: "x".repeat(100) },
+            _ => BlockInfo { height: 1, time: Timestamp::from_nanos(1), chain_id: "cosmos-testnet-14002".into() },
+        }
     }
     pub fn checksum(&self) -> Checksum {
         Checksum::generate(format!("wrapper-{}", self.seed).as_bytes())
@@ -327,7 +333,7 @@ fn main() {
     let replay = args.iter().position(|a| a == "--replay").and_then(|i| args.get(i + 1)).map(std::path::PathBuf::from);
     let mut rep = Report::new();
     // thorough: the same chains with several run-time seeds
-    let seeds: Vec<u64> = if tier.is_thorough() { (0..16).map(|i| seed * 1000 + i).collect() } else { vec![seed] };
+    let seeds: Vec<u64> = if tier.is_thorough() { (0..16).map(|i| seed * 1000 + i).collect() } else { (0..4).map(|i| seed * 4 + i).collect() };
     let slots = ["init", "storage", "api", "block", "bank", "custom", "wasm", "staking", "distribution", "ibc", "gov", "stargate"];
     for s in seeds {
         let rt = Rt { seed: s };
